@@ -29,7 +29,7 @@ theorem mainStep_inv6 {c : Ctl.State (Load.State τ) τ} {k : Nat} {w w' : Wk τ
   | collect =>
     simp only [hph] at hm
     cases p with
-    | collect errs garbage =>
+    | collect errs garbage intr sf0 =>
       simp only at hm
       have hcs : ∀ tl : List (WMsg τ), tl.filterMap (evOf k) = [] →
           completes ((([WMsg.ignored] ++ errs.map (fun (e : String × Bool) => WMsg.ev (Ctl.Event.collectreport k e.1 e.2)) ++
